@@ -328,6 +328,7 @@ class Evidence:
             "trusted_base": proof.get("trusted_base", []),
             "theorems": proof.get("theorems", []),
             "axioms": proof.get("axioms", {}),
+            "leanchecker": proof.get("leanchecker"),
             "evaluations": self.evaluations,
             "distinct_nontrivial": len(self.nontrivial),
             "rule": self.rule,
